@@ -54,6 +54,11 @@ CHECKS = {
    text="Valid STAM JSON, STAM CSV and CBOR serialisations of stores from seeded histories are mutated (line-wise JSON edits incl. extreme numbers, temporary ids with extreme numbers, @type swaps, rewired references, retyped values, truncation; CSV cell edits in manifest, annotation and dataset files; CBOR truncation at every short length, bit flips, length bytes) and loaded through from_str / from_file, AnnotationBuilder::from_json_str, annotate_from_file, AnnotationDataSet::from_file, plus hostile strings for the Cursor / Type / SelectorKind / DataFormat parsers. No input may panic, abort, exceed the CPU limit or stall, and an accepted store must be self-consistent. Held on the inputs observed except two recorded findings.",
    note="Trusted: dumpcheck.rs. The memory bound is the child's RLIMIT_AS (3 GiB): allocations below it that are driven by a number in the input are not noticed. Time proportional to the input is judged with 2 s + 1 ms/byte per input.",
    ref="5/C19"),
+ "C20": dict(
+   technique="runtime monitoring with a deterministic scheduler over hooked yield points (depth-first enumeration of the interleavings of two readers up to a budget, seeded sampling of pairs and triples) plus free-running stress with injected yields; oracle: every thread's result equals the result of the same call running alone before and after, and the hooked dump of the store is unchanged. Thorough adds Miri and ThreadSanitizer runs of the reader workloads when the tools build",
+   text="Reader operations (store.to_json_string, ToJson::to_json_string on a resource and a dataset, TextResource::to_json_string, a SELECT query, QueryResultItem::to_json_string, related_text, the .parallel() adaptors) run as 2-3 threads over one shared store with inline members, with stand-off members (unchanged and changed); every thread parks at each read or write of the shared serialisation mode and of the changed flags and a controller grants single steps; all pairs of operations are enumerated (exhaustively where the schedule tree is small, else up to the budget, then sampled), triples are sampled, and 4-12 free-running threads stress the same pairs. Held except the recorded finding (serialising a resource or dataset toggles the mode cell shared by all clones of the configuration).",
+   note="Trusted: the yield points of the verif feature cover every access to Config.serialize_mode and the changed flags; code between yield points is atomic in the controlled schedules and only exercised by the stress runs and the sanitizers. rayon worker threads are not scheduled.",
+   ref="5/C20"),
  "C15": dict(
    technique="runtime monitoring: round-trip differential on stores reached by seeded histories through the STAM CSV files (manifest, annotations table, dataset tables, .txt resources) - canonical observation with values reduced to their text",
    text="Final states of seeded histories (all selector kinds incl. complex selectors with mixed and range-compressed sub-selectors, end-aligned and relative offsets, gaps, ids without ';') are saved as STAM CSV and loaded again; resources and texts, keys, data ids and value text, annotation ids, data references, targets (kinds, referenced items, absolute ranges, selected text) and every reverse lookup must be equal. Held on the stores observed; the two temp-id findings are recorded.",
